@@ -35,7 +35,9 @@ package nsqd
 //@   ensures[refused-changes-nothing] result1 != nil ==> (atunlock(inFlight(c, gid)) <==> atlock(inFlight(c, gid))) && atunlock(c.inFlightMessages[gid]) == atlock(c.inFlightMessages[gid])
 //@   ensures[others] gid != id ==> (atunlock(inFlight(c, gid)) <==> atlock(inFlight(c, gid))) && atunlock(c.inFlightMessages[gid]) == atlock(c.inFlightMessages[gid])
 //@   ensures[len] atunlock(len(c.inFlightMessages)) == atlock(len(c.inFlightMessages)) - (result1 == nil ? 1 : 0)
-//@   modifies c.inFlightMessages, c.inFlightPQ, mapstore(map[MessageID]*Message)
+//@   modifies c.inFlightMessages, c.inFlightPQ, mapstore(map[MessageID]*Message), lastPopped
+//@   onreturn result1 == nil ==> lastPopped := result0
+//@   ensures[popped-nonnil] result1 == nil ==> result0 != nil
 
 //@ func (c *Channel) pushInFlightMessage(msg *Message) error
 //@   props C02 C08 C13
@@ -64,7 +66,8 @@ package nsqd
 // Options are stored once at start-up and swapped atomically afterwards; the pointer is never nil.
 //@ func (n *NSQD) getOpts() *Options
 //@   trusted
-//@   ensures result != nil
+//@   ensures result != nil && result == curOpts(n)
+//@   modifies
 
 // initPQ (start-up and Empty) replaces both queues. Under inFlightMutex it must honour the mutex's
 // guarantee: a message taken out of the heap gets back-index -1.
@@ -76,3 +79,39 @@ package nsqd
 //@     invariant[elems-kept] forall k int :: {c.inFlightPQ[k]} 0 <= k && k < len(c.inFlightPQ) ==> c.inFlightPQ[k] == atlock(c.inFlightPQ[k])
 //@     invariant[done] forall k int :: {c.inFlightPQ[k]} 0 <= k && k <= rangeindex && k < len(c.inFlightPQ) ==> c.inFlightPQ[k].index == -1
 //@     invariant[outsiders] !atlock(member(c.inFlightPQ, len(c.inFlightPQ), gm)) ==> gm.index == atlock(gm.index)
+
+// ---------------------------------------------------------------------------------------------
+// Timeouts (C04) and the channel-level halves of FIN / REQ / TOUCH (C02).
+// Ghosts record what the bookkeeping functions were asked to do, so that callers' contracts can pin it.
+//@ ghost lastPopped *Message
+//@ ghost lastPushed *Message
+//@ ghost lastDeferredItem *pqueue.Item
+//@ fn curOpts(n *NSQD) *Options
+//@ immutable Options.MaxMsgTimeout, Options.MaxReqTimeout, Options.MsgTimeout, Options.MaxRdyCount, Options.MaxMsgSize, Options.MaxBodySize, Options.MemQueueSize
+
+// delivery: owner, delivery time and deadline are set from ONE clock reading, then the message is
+// registered (map, then heap). deadline = now + timeout exactly (never early).
+//@ func (c *Channel) StartInFlightTimeout(msg *Message, clientID int64, timeout time.Duration) error
+//@   props C04 C02 C13
+//@   requires c != nil && msg != nil
+//@   ensures[owner] msg.clientID == clientID
+//@   ensures[delivery-time] msg.deliveryTS == lastNow
+//@   ensures[deadline] msg.pri == unixNano(lastNow) + timeout
+//@   modifies msg.clientID, msg.deliveryTS, msg.pri, lastNow, c.inFlightMessages, c.inFlightPQ, mapstore(map[MessageID]*Message), elems(*Message), Message.index, deref(inFlightPqueue)
+
+//@ benign (*github.com/nsqio/nsq/internal/quantile.Quantile).Insert
+
+// TOUCH: the new deadline is now + the client's msg timeout, but never beyond max-msg-timeout after
+// the delivery; a refused TOUCH (not in flight / not the owner) returns the error of the map pop.
+//@ func (c *Channel) TouchMessage(clientID int64, id MessageID, clientMsgTimeout time.Duration) error
+//@   props C04 C02
+//@   requires c != nil && c.nsqd != nil
+//@   ensures[deadline-capped] result == nil ==> lastPopped != nil && lastPopped.pri ==
+//@        min(unixNano(lastNow) + clientMsgTimeout, unixNano(lastPopped.deliveryTS) + curOpts(c.nsqd).MaxMsgTimeout)
+//@   modifies Message.pri, lastNow, lastPopped, c.inFlightMessages, c.inFlightPQ, mapstore(map[MessageID]*Message), elems(*Message), Message.index, deref(inFlightPqueue)
+
+//@ func (c *Channel) FinishMessage(clientID int64, id MessageID) error
+//@   props C02 C13
+//@   requires c != nil
+//@   ensures[finished] result == nil ==> lastPopped != nil
+//@   modifies lastPopped, c.inFlightMessages, c.inFlightPQ, mapstore(map[MessageID]*Message), elems(*Message), Message.index, deref(inFlightPqueue)
